@@ -25,7 +25,7 @@ LEVEL_TEXT = ("Analytic polar-stereographic grids (random pole, rotation, resolu
 LEVEL_NOTE = "Position error bound = 1.5*sqrt(tol)/sigma_min(J) with tol = 1e-7 (bilin_inv's stopping rule), J = local Jacobian in degrees per cell; trusts numpy/netCDF4 and the closed-form projection in the harness."
 RULE = ("cases: sample2d chunks (random fields/masks/positions/substitutes), roundtrip (one grid x subgrid x 2000 positions), e2e (lon/lat release + lon/lat output, sparse and dense). "
         "Non-trivial: positions within one cell of the rim of the valid region are present / masked or outside points present; distinct by grid parameters.")
-MANDATORY = ["xy2ll_positions_in_cells_with_a_land_corner", "e2e_lonlat_output_in_cells_with_a_land_corner", "e2e_grid_module_ROMS2_lonlat_release", "e2e_lonlat_stored_packed", "positions_within_1e-9_of_a_masked_edge", "grid_longer_than_700_cells", "e2e_inactive_particles", "e2e_split_output_files", "post_sample2D", "roundtrip_positions", "longitudes_beyond_180", "rim_positions", "subgrid", "outside_value_zero", "outside_value_nan", "masked_corner",
+MANDATORY = ["e2e_release_rows_sharing_a_longitude_or_a_latitude", "xy2ll_positions_in_cells_with_a_land_corner", "e2e_lonlat_output_in_cells_with_a_land_corner", "e2e_grid_module_ROMS2_lonlat_release", "e2e_lonlat_stored_packed", "positions_within_1e-9_of_a_masked_edge", "grid_longer_than_700_cells", "e2e_inactive_particles", "e2e_split_output_files", "post_sample2D", "roundtrip_positions", "longitudes_beyond_180", "rim_positions", "subgrid", "outside_value_zero", "outside_value_nan", "masked_corner",
              "all_masked", "outside_raises", "e2e_lonlat_release", "e2e_lonlat_output", "exact_bilinear_field", "fine_grid_below_250m", "e2e_fine_grid_below_250m"]
 ASSUMPTIONS = ["grids are conformal and smooth (polar stereographic) as the property quantifies; the branch cut of longitude is kept outside the grid"]
 TIMEOUT = {"quick": 600, "thorough": 3000}
@@ -362,6 +362,33 @@ def _case_e2e(case, wd, V, sit, cnt, keys):
                 X[k_], Y[k_] = rng.uniform(i0 + 2.0, i1 - 3.0), rng.uniform(j0 + 2.0, j1 - 3.0)
     lon, lat = W.polar_lonlat(X, Y, pol)  # true coordinates of the intended positions
     bylonlat = bool(case["idx"] % 2 == 0)
+    if bylonlat:
+        # stations on one meridian and on one parallel: particle 1 shares its longitude, particle 2 its latitude with particle 0 (about half a cell away);
+        # on these rotated, curved grids X depends on both coordinates
+        dlat = 0.5 * pol["dx"] / 111.2e3
+
+        def inv(lo_t, la_t, x_, y_):
+            for _ in range(30):
+                f0 = np.array(W.polar_lonlat(np.array([x_]), np.array([y_]), pol)).ravel()
+                fx = np.array(W.polar_lonlat(np.array([x_ + 1e-4]), np.array([y_]), pol)).ravel()
+                fy = np.array(W.polar_lonlat(np.array([x_]), np.array([y_ + 1e-4]), pol)).ravel()
+                Jm = np.array([[fx[0] - f0[0], fy[0] - f0[0]], [fx[1] - f0[1], fy[1] - f0[1]]]) / 1e-4
+                d_ = np.linalg.solve(Jm, np.array([lo_t - f0[0], la_t - f0[1]]))
+                x_, y_ = x_ + d_[0], y_ + d_[1]
+            return float(x_), float(y_)
+
+        for k_, (dlo_, dla_) in ((1, (0.0, dlat)), (2, (dlat / max(0.2, np.cos(np.radians(lat[0]))), 0.0))):
+            lo_t, la_t = float(lon[0] + dlo_), float(lat[0] + dla_)
+            try:
+                x_, y_ = inv(lo_t, la_t, float(X[0]), float(Y[0]))
+            except np.linalg.LinAlgError:
+                continue
+            chk = W.polar_lonlat(np.array([x_]), np.array([y_]), pol)
+            inside_ = i0 + 1.5 < x_ < i1 - 2.5 and j0 + 1.5 < y_ < j1 - 2.5
+            sea_ = "mask" not in w or Mk[int(round(y_)), int(round(x_))] > 0
+            if inside_ and sea_ and abs(float(chk[0][0]) - lo_t) < 1e-9 and abs(float(chk[1][0]) - la_t) < 1e-9:
+                X[k_], Y[k_], lon[k_], lat[k_] = x_, y_, lo_t, la_t
+                _bump(sit, "e2e_release_rows_sharing_a_longitude_or_a_latitude")
     layout = "dense" if (case["idx"] // 2) % 2 else "sparse"
     if bylonlat:
         cols = ["release_time", "lon", "lat", "Z"]
